@@ -28,9 +28,17 @@ import (
 
 type gRPCServer struct {
 	server *grpc.Server
+
+	// mu guards conns, the connections the listener has handed out which
+	// are still open. grpc.Server only knows a connection once the client
+	// has sent its HTTP/2 preface; Stop and GracefulStop wait for the ones
+	// it does not know yet without being able to close them.
+	mu    sync.Mutex
+	conns map[net.Conn]struct{}
 }
 
 func (s *gRPCServer) Close() error {
+	s.closeConns()
 	s.server.Stop()
 	return nil
 }
@@ -38,7 +46,8 @@ func (s *gRPCServer) Close() error {
 // Shutdown stops accepting new connections and waits for the running calls
 // to finish. When ctx is done before that it stops the server forcibly,
 // which closes the remaining connections, so that a stream which never
-// ends cannot delay the shutdown beyond the configured wait.
+// ends or a client which never finishes its handshake cannot delay the
+// shutdown beyond the configured wait.
 func (s *gRPCServer) Shutdown(ctx context.Context) error {
 	done := make(chan struct{})
 	go func() {
@@ -49,6 +58,7 @@ func (s *gRPCServer) Shutdown(ctx context.Context) error {
 	case <-done:
 		return nil
 	case <-ctx.Done():
+		s.closeConns()
 		s.server.Stop()
 		<-done
 		return ctx.Err()
@@ -56,7 +66,51 @@ func (s *gRPCServer) Shutdown(ctx context.Context) error {
 }
 
 func (s *gRPCServer) Serve(lis net.Listener) error {
-	return s.server.Serve(lis)
+	return s.server.Serve(&grpcListener{Listener: lis, srv: s})
+}
+
+// closeConns closes all connections which the listener has accepted.
+func (s *gRPCServer) closeConns() {
+	s.mu.Lock()
+	conns := s.conns
+	s.conns = nil
+	s.mu.Unlock()
+	for c := range conns {
+		c.Close()
+	}
+}
+
+// grpcListener keeps track of the accepted connections.
+type grpcListener struct {
+	net.Listener
+	srv *gRPCServer
+}
+
+func (l *grpcListener) Accept() (net.Conn, error) {
+	c, err := l.Listener.Accept()
+	if err != nil {
+		return nil, err
+	}
+	tc := &grpcConn{Conn: c, srv: l.srv}
+	l.srv.mu.Lock()
+	if l.srv.conns == nil {
+		l.srv.conns = map[net.Conn]struct{}{}
+	}
+	l.srv.conns[tc] = struct{}{}
+	l.srv.mu.Unlock()
+	return tc, nil
+}
+
+type grpcConn struct {
+	net.Conn
+	srv *gRPCServer
+}
+
+func (c *grpcConn) Close() error {
+	c.srv.mu.Lock()
+	delete(c.srv.conns, c)
+	c.srv.mu.Unlock()
+	return c.Conn.Close()
 }
 
 func GetGRPCDirector(tlscfg *tls.Config, cfg *config.Config) func(ctx context.Context, fullMethodName string) (context.Context, *grpc.ClientConn, error) {
